@@ -9,7 +9,7 @@ EXPLANATION = ('Proof by local obligations on FinalizerObserver / FinalizerSubsc
                'FnOnce() only and lives in an Option inside a shared cell created once per actual_subscribe (at most once by typing); '
                'N2+N4 error(), complete() and unsubscribe() each deliver the downstream terminal / inner unsubscribe first and then take() '
                'and call the callback on every path on which it is still there; N3 no other method takes or calls it; N5 the take() is made '
-               'through the cell guard, so racing triggers cannot both obtain it; N7 the shared subscriber slot upstream of finalize stays locked while it delivers a terminal, so a racing unsubscribe cannot run the callback before the terminal is through (same rule as C02.U6); N6 the callback cell is the innermost lock: no method of the finalize observer/subscription calls the inner subscription or the downstream observer while holding its guard (a terminating thread takes the cell last, under the source-side locks: the opposite order blocks both and the callback never runs). All obligations must be discharged.')
+               'through the cell guard, so racing triggers cannot both obtain it; N8 the subscriber cell is never vacated while an item is delivered (same rule as C06.J11: otherwise a racing unsubscribe runs the callback mid-delivery and the write-back revives the subscription); N7 the shared subscriber slot upstream of finalize stays locked while it delivers a terminal, so a racing unsubscribe cannot run the callback before the terminal is through (same rule as C02.U6); N6 the callback cell is the innermost lock: no method of the finalize observer/subscription calls the inner subscription or the downstream observer while holding its guard (a terminating thread takes the cell last, under the source-side locks: the opposite order blocks both and the callback never runs). All obligations must be discharged.')
 ASSUMPTIONS = ['RefCell/Mutex give exclusive access to the Option<F> slot; a value moved out by Option::take cannot be obtained twice']
 TECHNIQUE = 'static analysis: type-bound (SIG) obligations and regular-language rules over MIR event graphs'
 
@@ -105,7 +105,14 @@ def n7(cx):
     out = [Finding(ID, 'N7', f.key, f.ok, f.msg, f.loc, f.witness) for f in c02.u6(cx) if '::error' in f.key or '::complete' in f.key]
     if len(out) < 4:
         out.append(Finding(ID, 'N7', 'floor', False, 'expected the terminal methods of the two shared-slot observers, found %d' % len(out)))
-    return out
+    # N8: ... and it is never vacated while an item is delivered (same rule as C06.J11 / C03.S14): an unsubscribe() that finds the
+    # subscriber cell empty returns at once and runs the callback in the middle of the delivery; the write-back then revives the
+    # subscription, so items and the terminal follow the callback and the real end runs none
+    from . import c01
+    n8 = [Finding(ID, 'N8', f.key, f.ok, f.msg, f.loc, f.witness) for f in c01.p3(cx, items=True) if 'subscriber::Subscriber' in f.key and '::next' in f.key]
+    if len(n8) < 2:
+        n8.append(Finding(ID, 'N8', 'floor', False, 'expected next() of Subscriber and SubscriberThreads, found %d' % len(n8)))
+    return out + n8
 
 
 def _check_own(cx):
